@@ -12,7 +12,7 @@ from ..core import Outcome, Partial, violation, H, B
 ID = "C02"
 RULE = ("(1) emission: drawn MIB (mobile/stationary, default hop limit/lifetime), ego position vector (all address types, station "
         "types 0..12, signed lat/lon over the 32-bit range with boundary bias, 15-bit signed speed, 16-bit heading), request (SHB, "
-        "GBC/GAC x 3 shapes, GUC, LS request, LS reply, beacon, forwarded TSB/GBC/GAC/GUC/LS; BTP-A/B with all 16-bit ports; traffic "
+        "GBC/GAC x 3 shapes, GUC, LS request, LS reply (requester unknown | already known through a beacon with the request's SO PV older / newer than the location-table PV: the DE PV must be the table's, EN 302 636-4-1 10.3.7.3), beacon, forwarded TSB/GBC/GAC/GUC/LS; BTP-A/B with all 16-bit ports; traffic "
         "class 0..255; payload 0..1400) -> bytes captured at LinkLayer.send() must equal refcodec.build(expected fields); "
         "(2) decoders: drawn field vectors -> refcodec bytes -> repository decode -> attribute values must equal the fields; "
         "(3) per-field exhaustive: every value of every header field <= 16 bits at 8 base vectors, encode and decode direction. "
@@ -524,10 +524,24 @@ def run_emission_case(case0):
                     rc.build_lsreq_ext(sn1, r_lpv(ego), r_addr(third["addr"]))
             elif t == "lsrep":
                 # an LS request of `third` for our address arrives -> we answer with an LS reply
-                st_.receive(rc.build_packet("lsreq", so=_so(third), sn=case["fsn"], rhl=case["rhl"], mhl=case["rhl"], req_addr=r_addr(ego["addr"])))
+                # EN 302 636-4-1 10.3.7.3 (table 25): the DE PV of the reply is the requester's PV held in the LOCATION TABLE, which differs
+                # from the SO PV of a delayed request when a newer packet of the requester was processed before it
+                ls_rel = {"older": "older", "older_across_wrap": "older", "newer": "newer", "newer_across_wrap": "newer"}.get(case.get("de_rel"))
+                req_so, table_pv = third, third
+                if ls_rel:
+                    st_.receive(rc.build_packet("beacon", so=_so(third)))
+                    st_.ll.sent.clear()
+                    moved = dict(third, lat=third["lat"] + 1000, lon=third["lon"] - 1000)
+                    if ls_rel == "older":
+                        req_so = dict(moved, tst=(third["tst"] - 1000) % (1 << 32))
+                    else:
+                        clock.advance(1.0)
+                        req_so = table_pv = dict(moved, tst=tst32(clock.now))
+                    labels.append("lsrep-requester-known:" + ls_rel)
+                st_.receive(rc.build_packet("lsreq", so=_so(req_so), sn=case["fsn"], rhl=case["rhl"], mhl=case["rhl"], req_addr=r_addr(ego["addr"])))
                 dlt = _code(rc.lt_best_ms(case["default_lt"] * 1000))
                 expected = rc.build_basic(1, 1, 0, dlt, case["default_hl"]) + common(6, 1, case["default_hl"], nh=0, tc=0, pl=0) + \
-                    rc.build_lsrep_ext(sn1, r_lpv(ego), r_spv(third))
+                    rc.build_lsrep_ext(sn1, r_lpv(ego), r_spv(table_pv))
             else:
                 # forwarded copies: a conformant packet from `third` not addressed to us, RHL >= 2
                 kind = t[4:]
